@@ -84,9 +84,17 @@ pub fn child_main(root: &Path) {
                     Err(_) => "err".to_string(),
                 }
             }
-            "open" | "openstats" | "openasync" => {
+            "open" | "openstats" | "openasync" | "openbad" => {
                 *muts.lock().unwrap() = 0;
-                let conf = if cmd == "openasync" { Config { sync_mode: cassadilia::SyncMode::Async, ..Default::default() } } else { Config::default() };
+                let conf = if cmd == "openasync" {
+                    Config { sync_mode: cassadilia::SyncMode::Async, ..Default::default() }
+                } else if cmd == "openbad" {
+                    // settings the store will reject (it was created with the default segment size) - and a request for the
+                    // pre-created tree on top: a loser must not get as far as looking at either
+                    Config { num_ops_per_wal: std::num::NonZeroU64::new(7777).unwrap(), pre_create_cas_dirs: true, ..Default::default() }
+                } else {
+                    Config::default()
+                };
                 let r: Result<(Cas<String>, Option<OrphanStats<String>>), LibError> = Cas::open_with_recover(root, conf);
                 let m = *muts.lock().unwrap();
                 match r {
